@@ -105,6 +105,7 @@ def run(pid: str, tier: str, replay: str | None, t0: float) -> int:
     bad_scans = [s for s in scans if not s.ok]
     bad_lemmas = [(n, r) for n, r in lemma_res if r != "unsat"]
     bad_extra = [e for e in extra_res if not e["ok"]]
+    unreachable = [(q, rec["error"]) for q, rec in recs.items() if rec.get("error")]
     violations, knowns = [], []
     for q, r in failing:
         k = [k for k in known["known"] if k["property"] == pid and k["obligation"] == r["name"]]
@@ -163,6 +164,28 @@ def run(pid: str, tier: str, replay: str | None, t0: float) -> int:
     for q, r in failing_support:
         print(f"NOTE: supporting obligation of another property not discharged: {r['name']} [{r['status']}] tags={r['tags']}")
     rc = 0
+    if unreachable and not (violations or bad_scans or bad_lemmas or bad_extra):
+        # bounded stand-in: the real functions under the contract monitors over the enumerated scenarios
+        for q, err in unreachable:
+            print(f"NOTE: {q} is outside the verifier's reach on this tree ({err[:200]}); falling back to the bounded native check")
+        import native
+        w = native.search(pid, [], REPO, seed, budget_s=120 if tier == "quick" else 600)
+        os.makedirs(os.path.join(HERE, "replay"), exist_ok=True)
+        rp = os.path.join(HERE, "replay", f"{pid}-{int(time.time())}.json")
+        json.dump({"property": pid, "unverifiable_functions": unreachable, "native_replay": w,
+                   "bounded": "bounded native stand-in (contract monitors on the real code), scope: " + str(w.get("scope"))}, open(rp, "w"), indent=1)
+        ev["coverage"]["bounded_or_native_parts"] = [{"name": "native-monitor-standin", "scope": w.get("scope"), "runs": w.get("scenario_runs"),
+                                                      "found": w.get("found")}]
+        ev["level"] = "other"
+        json.dump(ev, open(os.path.join(HERE, "evidence", f"{pid}.json"), "w"), indent=1)
+        if w.get("found"):
+            for x in w["witnesses"]:
+                print(f"  FAILED {x['obligation']} on the real code: scenario={x['scenario']} seed={x['seed']} clause={x['clause'][:140]}")
+            print(f"VIOLATION property={pid} replay={rp}")
+            return 1
+        print(f"UNDECIDED property={pid}: contract attachment lost for {[q for q, _ in unreachable]} and the bounded native check "
+              f"({w.get('scenario_runs')} scenario runs) found no violation; replay={rp}")
+        return 2
     if violations or bad_scans or bad_lemmas or bad_extra:
         os.makedirs(os.path.join(HERE, "replay"), exist_ok=True)
         rp = os.path.join(HERE, "replay", f"{pid}-{int(time.time())}.json")
@@ -179,7 +202,7 @@ def run(pid: str, tier: str, replay: str | None, t0: float) -> int:
         witness = None
         try:
             import native
-            witness = native.search(pid, items, REPO, seed)
+            witness = native.search(pid, items, REPO, seed, budget_s=60 if tier == "quick" else 300)
         except Exception as ex:  # pragma: no cover
             witness = {"found": False, "error": repr(ex)}
         found = bool(witness and witness.get("found")) or any(e.get("witness") for e in bad_extra) or bool(bad_scans)
